@@ -29,7 +29,7 @@ CASE_TIMEOUT = int(os.environ.get('VERIF_CASE_TIMEOUT', '300'))
 
 
 def load_known(prop):
-    if not KNOWN.exists():
+    if not KNOWN.exists() or os.environ.get('VERIF_IGNORE_KNOWN'):
         return []
     data = json.loads(KNOWN.read_text())
     return [f for f in data.get('findings', []) if f.get('property') == prop and f.get('status') == 'known']
